@@ -840,6 +840,20 @@ static void overwrite_item(cJSON * const root, const cJSON replacement)
     memcpy(root, &replacement, sizeof(cJSON));
 }
 
+/* check if a JSON pointer is a proper prefix of another one, i.e. designates one of its ancestors */
+static cJSON_bool pointer_is_proper_prefix(const unsigned char *prefix, const unsigned char *pointer, const cJSON_bool case_sensitive)
+{
+    for (; *prefix != '\0'; (void)prefix++, pointer++)
+    {
+        if (case_sensitive ? (*prefix != *pointer) : (tolower(*prefix) != tolower(*pointer)))
+        {
+            return false;
+        }
+    }
+
+    return (*pointer == '/');
+}
+
 static int apply_patch(cJSON *object, const cJSON *patch, const cJSON_bool case_sensitive)
 {
     cJSON *path = NULL;
@@ -952,6 +966,12 @@ static int apply_patch(cJSON *object, const cJSON *patch, const cJSON_bool case_
 
         if (opcode == MOVE)
         {
+            if (pointer_is_proper_prefix((unsigned char*)from->valuestring, (unsigned char*)path->valuestring, case_sensitive))
+            {
+                /* a location cannot be moved into one of its children. */
+                status = 14;
+                goto cleanup;
+            }
             value = detach_path(object, (unsigned char*)from->valuestring, case_sensitive);
         }
         if (opcode == COPY)
